@@ -6,6 +6,7 @@ From BS Require Import Run.D_C15.
 From BS Require Import Run.D_C04 Run.D_C18.
 From BS Require Import Run.D_C06.
 From BS Require Run.D_C08.
+From BS Require Run.D_CD.
 From BS Require Run.D_C10 Run.D_C16.
 From BS Require Import Run.D_C12.
 
@@ -259,6 +260,7 @@ Definition disp_ext (code : Z) (args : list sexp) : sexp :=
   | 18 => disp_c18 sub args
   | 4 => disp_c04 sub args
   | 15 => disp_c15 sub args
+  | 21 => BS.Run.D_CD.disp_cd sub args
   | _ => A (-2)
   end.
 
